@@ -40,7 +40,7 @@ PROPS["C20"] = dict(
     lean_targets=["Chihaya.Props.C20"],
     props_files=["Chihaya/Props/C20.lean"],
     gen=["validate"],
-    facts=["validated_config_use"],
+    facts=["validated_config_use", "http_server_timeouts"],
     streams=[dict(name="C20", quick=8000, thorough=300000), dict(name="C06", quick=4000, thorough=100000), dict(name="C07", quick=3000, thorough=100000)],
     rule="cases: the four real Config.Validate methods on boundary products (min, -1, 0, 1, typical, MaxInt/2, MaxInt/2+1, max per field) and random values, "
          "validated twice; registry lookups of known/unknown hook and store names; Redis URL strings; stores constructed from out-of-range "
